@@ -28,7 +28,7 @@ N   == Len(Rec)
 VARIABLES l, bad, cnt, T, alive
 tvars == <<l, bad, cnt, T, alive>>
 
-Kinds == {"univ", "can_read", "can_write", "apply", "parse", "variant", "from_numbers", "reset", "step",
+Kinds == {"univ", "can_read", "can_write", "apply", "parse", "variant", "from_numbers", "infer", "reset", "step",
           "gate_univ", "gate"}
 Counters == Kinds \cup {"apply_err", "step_skipped", "gate_unknown", "gate_control", "step_del", "step_base",
                         "step_config", "step_stable", "step_switch"}
@@ -79,6 +79,7 @@ PureOK(e) ==
                       /\ ParseOK(VersionStrings[e[2]], e[4], e[5])
     [] k = "variant" -> VariantOK(e[2], e[3], e[4], e[5], e[6], e[7], e[8], e[9])
     [] k = "from_numbers" -> FromNumbersOK(<<e[2], e[3]>>, e[4], e[5])
+    [] k = "infer" -> e[3] = InferSem(e[2])
     [] k = "gate_univ" -> /\ {e[2][i] : i \in 1 .. Len(e[2])} = ReadOps
                           /\ {e[3][i] : i \in 1 .. Len(e[3])} = WriteOps
     [] OTHER -> FALSE
